@@ -671,6 +671,7 @@ func exclusiveWiring(c *Ctx) {
 			q.add("PATH", "every path of the entry point reaches the core", !skip, pickS(!skip, "no return without CallWithOptions / a sibling entry point", "the entry point can return without submitting the work"), outs[0])
 		}
 	}
+	exclusiveValueRule(c)
 	// option constructors: the returned closure sets exactly its own field from the constructor's argument
 	for _, oc := range [][2]string{{"ExclusiveKey", "exclusiveConfig.key"}, {"ExclusiveWork", "exclusiveConfig.work"}, {"ExclusiveWait", "exclusiveConfig.wait"}, {"ExclusiveStart", "exclusiveConfig.start"}} {
 		q := c.F(oc[0])
@@ -728,4 +729,70 @@ func exclusiveWiring(c *Ctx) {
 				pickS(ok && passes, "for each options[i]: options[i](&config); call(config)", "CallWithOptions does not apply every given option to the config it passes on"), calls[0])
 		}
 	}
+}
+
+// exclusiveValueRule: ExclusiveValue adapts a plain function into work that resolves exactly once with exactly that
+// function's result, and hands it to ExclusiveWork (a nil function stays a nil work, which call() rejects).
+func exclusiveValueRule(c *Ctx) {
+	P := c.P
+	q := c.F("ExclusiveValue")
+	if !q.ok() {
+		return
+	}
+	// the adapter: the closure that takes one func parameter (resolve)
+	cls := closuresOf(q.fn, func(f *ssa.Function) bool {
+		if len(f.Params) != 1 {
+			return false
+		}
+		_, isSig := f.Params[0].Type().Underlying().(*types.Signature)
+		return isSig
+	})
+	if len(cls) != 1 {
+		q.undecided("PROV", "ExclusiveValue adapter", "expected one adapter closure taking resolve")
+		return
+	}
+	a := &fq{c: c, fn: cls[0], name: an.FuncName(cls[0])}
+	var valCalls, resCalls []ssa.Instruction
+	for _, in := range an.AllInstrs(a.fn, func(in ssa.Instruction) bool { _, ok := in.(*ssa.Call); return ok }) {
+		call := in.(*ssa.Call)
+		if call.Call.IsInvoke() || call.Call.StaticCallee() != nil {
+			continue
+		}
+		if call.Call.Value == ssa.Value(a.fn.Params[0]) {
+			resCalls = append(resCalls, in)
+		} else if srcIs(P, call.Call.Value, q.fn.Params[0]) {
+			valCalls = append(valCalls, in)
+		}
+	}
+	ok := len(valCalls) == 1 && len(resCalls) == 1 && !P.InCycle(valCalls[0]) && !P.InCycle(resCalls[0])
+	if ok {
+		vc, rc := valCalls[0].(*ssa.Call), resCalls[0].(*ssa.Call)
+		ok = len(rc.Call.Args) == 2 && rc.Call.Args[0] == resultOf2(vc, 0) && rc.Call.Args[1] == resultOf2(vc, 1) &&
+			!P.PathExists(a.fn, nil, an.IsReturn, an.Is(rc), nil)
+	}
+	a.add("PROV", "the adapter resolves exactly once with the function's own result", ok,
+		pickS(ok, "resolve(value()) - one call of value, one call of resolve with both results, on every path", "the adapter does not pass value()'s result and error to resolve exactly once"))
+	works := P.CallsTo(q.fn, "ExclusiveWork")
+	okw := len(works) == 1
+	if okw {
+		okw = false
+		for _, s := range P.Sources(callArg(works[0], 0)) {
+			if mc, isMC := s.(*ssa.MakeClosure); isMC && mc.Fn == ssa.Value(a.fn) {
+				okw = true
+			} else if fnv, isF := s.(*ssa.Function); isF && fnv == a.fn {
+				okw = true
+			} else if !isNilConst(s) {
+				okw = false
+				break
+			}
+		}
+		for _, r := range returnsOf(q.fn) {
+			for _, v := range c.retVals(r, 0) {
+				if v != ssa.Value(works[0].(*ssa.Call)) {
+					okw = false
+				}
+			}
+		}
+	}
+	q.add("PROV", "ExclusiveValue installs the adapter as the work", okw, pickS(okw, "return ExclusiveWork(adapter or nil)", "ExclusiveValue does not return ExclusiveWork of its adapter"), works...)
 }
